@@ -348,3 +348,81 @@ func newServer(wrap func(http.Handler) http.Handler) *mwServer {
 }
 func (s *mwServer) do(q Req) Resp               { return serveWith(s.h, q, nil, &s.invoked) }
 func (s *mwServer) doPreset(q Req, p []HV) Resp { return serveWith(s.h, q, p, &s.invoked) }
+
+// ---- bystander request headers
+
+// noiseVocab: request headers that real clients, proxies and frameworks attach
+// and that, by the documentation, take no part in any CORS decision: Fetch
+// metadata, content negotiation, credentials, forwarding, method override.
+var noiseVocab = []HV{
+	{"Sec-Fetch-Site", []string{"same-origin", "cross-site", "same-site", "none"}},
+	{"Sec-Fetch-Mode", []string{"cors", "no-cors", "navigate", "same-origin", "websocket"}},
+	{"Sec-Fetch-Dest", []string{"empty", "document", "script"}},
+	{"Sec-Fetch-User", []string{"?1"}},
+	{"Sec-Purpose", []string{"prefetch"}},
+	{"Content-Type", []string{"application/json", "text/plain", "application/x-www-form-urlencoded"}},
+	{"Content-Length", []string{"0", "17"}},
+	{"Authorization", []string{"Bearer abc", "Basic Zm9vOmJhcg=="}},
+	{"Cookie", []string{"sid=1"}},
+	{"Referer", []string{"https://example.com/", "https://foo.example.com/page"}},
+	{"Accept", []string{"*/*", "application/json"}},
+	{"User-Agent", []string{"Mozilla/5.0", "curl/8.0"}},
+	{"Cache-Control", []string{"no-cache", "max-age=0"}},
+	{"Pragma", []string{"no-cache"}},
+	{"Connection", []string{"keep-alive", "close", "upgrade"}},
+	{"Upgrade", []string{"websocket", "h2c"}},
+	{"Via", []string{"1.1 proxy"}},
+	{"Forwarded", []string{"for=1.2.3.4;proto=https;host=example.com"}},
+	{"X-Forwarded-For", []string{"1.2.3.4"}},
+	{"X-Forwarded-Host", []string{"example.com", "server.test"}},
+	{"X-Forwarded-Proto", []string{"https", "http"}},
+	{"X-Http-Method-Override", []string{"GET", "OPTIONS", "PUT"}},
+	{"X-Requested-With", []string{"XMLHttpRequest"}},
+	{"Dnt", []string{"1"}},
+	{"Te", []string{"trailers"}},
+	{"Expect", []string{"100-continue"}},
+	{"If-None-Match", []string{"\"abc\""}},
+	{"Range", []string{"bytes=0-1"}},
+	{"Accept-Encoding", []string{"gzip"}},
+	{"Priority", []string{"u=1"}},
+	{"Access-Control-Allow-Origin", []string{"*"}}, // a response header name sent as a request header
+	{"Vary", []string{"Origin"}},
+	// not a header: the request's Host (r.Host and URL), e.g. equal to the Origin's host
+	{":host", []string{"example.com", "foo.example.com", "localhost", "example.com:443", "127.0.0.1:9090"}},
+}
+
+func genNoise(r *R) []HV {
+	var out []HV
+	for _, hv := range subset(r, noiseVocab, 0.12) {
+		out = append(out, HV{hv.K, []string{pick(r, hv.V)}})
+	}
+	if len(out) == 0 {
+		hv := pick(r, noiseVocab)
+		out = append(out, HV{hv.K, []string{pick(r, hv.V)}})
+	}
+	return out
+}
+
+// withNoise returns q with the headers of noise added (names q already has
+// are left alone).
+func (q Req) withNoise(noise []HV) Req {
+	out := Req{Method: q.Method, Host: q.Host, H: append([]HV{}, q.H...)}
+	for _, n := range noise {
+		if n.K == ":host" {
+			if out.Host == "" && len(n.V) > 0 {
+				out.Host = n.V[0]
+			}
+			continue
+		}
+		dup := false
+		for _, h := range q.H {
+			if strings.EqualFold(h.K, n.K) {
+				dup = true
+			}
+		}
+		if !dup {
+			out.H = append(out.H, n)
+		}
+	}
+	return out
+}
